@@ -260,6 +260,12 @@ pub fn channel_list(s: &[u8]) -> Verdict<ChanEntry> {
             c if is_foreign_channel(c) => {
                 return Verdict::Listed { prefix: entries, partial: Some(entry), what: "foreign character" };
             }
+            // a blank or TAB directly behind a complete entry: the list syntax has no white space (SCPI-99 8.3.2),
+            // and what follows it is never another entry (white space elsewhere - leading, inside a spec, other
+            // kinds - stays unjudged)
+            b' ' | b'\t' => {
+                return Verdict::Listed { prefix: entries, partial: Some(entry), what: "foreign character" };
+            }
             _ => return Verdict::Unknown, // glued entries, stray '!', sign after a spec ...
         }
     }
